@@ -19,7 +19,7 @@ import (
 
 // C16 - streaming RPCs make progress message by message.
 
-const ruleC16 = "rapid draws strict ping-pong exchanges on the bidi method: 1..30 rounds, per-round payload sizes 0..64 KiB (empty payloads included), streaming client forms {Connect stream, gRPC, gRPC-Web} x streaming targets {Connect, gRPC, gRPC-Web} x same/different codec x same/different compression x compressed or raw frames. The client (request body = pipe) sends message k+1 only after it has RECEIVED response k, where 'received' means: the bytes of the complete converted frame have reached the underlying ResponseWriter and a Flush followed; the handler writes response k only after it has read request k completely. A third of the handlers read through a 4 KiB buffered reader, a quarter of the exchanges run behind a middleware writer that buffers the body and offers Flush and Unwrap. Oracle: every round completes (stalled = no observable step of client, handler or transcoder output for 4 s, three orders of magnitude above a round, or not finished after 20 s), every response frame is followed by a Flush before the next request message is needed, the transcoder never needs request bytes beyond message k to deliver message k, and the final outcome is OK with exactly the exchanged messages. Non-trivial = at least 2 rounds through a converting adapter; distinct by hash(form, target, codecs, compressions, sizes)."
+const ruleC16 = "rapid draws strict ping-pong exchanges on the bidi method: 1..30 rounds, per-round payload sizes 0..64 KiB (empty payloads included), streaming client forms {Connect stream, gRPC, gRPC-Web} x streaming targets {Connect, gRPC, gRPC-Web} x same/different codec x same/different compression x compressed or raw frames. The client (request body = pipe) sends message k+1 only after it has RECEIVED response k, where 'received' means: the bytes of the complete converted frame have reached the underlying ResponseWriter and a Flush followed; the handler writes response k only after it has read request k completely. A third of the handlers read through a 4 KiB buffered reader, a quarter of the exchanges run behind a middleware writer that buffers the body and offers Unwrap plus either Flush or only FlushError() error; the handler flushes through http.ResponseController. Oracle: every round completes (stalled = no observable step of client, handler or transcoder output for 4 s, three orders of magnitude above a round, or not finished after 20 s), every response frame is followed by a Flush before the next request message is needed, the transcoder never needs request bytes beyond message k to deliver message k, and the final outcome is OK with exactly the exchanged messages. Non-trivial = at least 2 rounds through a converting adapter; distinct by hash(form, target, codecs, compressions, sizes)."
 
 type pingCase struct {
 	Form                 string   `json:"form"`
